@@ -34,7 +34,7 @@ ASSUMPTIONS = ["equality of blake2 digests of the JSON-serialised results is equ
                "two scans of one tree may differ in uuid, timestamp and listing order only (as the property states)"]
 BOUNDS = {"quick": dict(seeds=["0", "1", "2", "3", "r"], orders=2, canon=8, hostile=40, trees=3, walk_perms=6),
           "thorough": dict(seeds=[str(i) for i in range(63)] + ["r"], orders=4, canon=40, hostile=300, trees=20, walk_perms=40)}
-MINIMUM = {"quick": {"monitor.digests_compared": 5000, "monitor.tree_reports_compared": 100, "monitor.repeat_checks": 1000},
+MINIMUM = {"quick": {"monitor.digests_compared": 5000, "monitor.tree_reports_compared": 100, "monitor.repeat_checks": 1000, "monitor.isolation_checks": 300},
            "thorough": {"monitor.digests_compared": 500000, "monitor.tree_reports_compared": 5000, "monitor.repeat_checks": 50000}}
 
 
@@ -159,7 +159,37 @@ def tree_checks(ctx, shard):
                     os.makedirs(os.path.dirname(p), exist_ok=True)
                     with open(p, "wb") as f:
                         f.write(data[: rng.randrange(2000, 30000)] if rng.random() < 0.3 else data)
+            # byte-identical files under names that map to different languages, with content the languages measure differently
+            # (C filters nested candidates, C++ reports them; TypeScript accepts ':' after a parameter list, JavaScript does not)
+            twins = [("native/queue.h", "compat/queue.hpp", b"void run(struct q *q) {\n  QUEUE_FOREACH(it, q) {\n    use(it);\n  }\n  done(q);\n}\n"),
+                     ("lib/pick.js", "lib/pick.ts", b"function pick(c, a) {\n  return c ? run(a) : {\n    x: 1\n  };\n}\n"),
+                     ("a/same.c", "b/same.cc", b"int twice(int a) {\n  WITH_LOCK(m) {\n    a = a * 2;\n  }\n  return a;\n}\n")]
+            for a, b, data in twins:
+                order_ab = rng.random() < 0.5
+                for rel in ((a, b) if order_ab else (b, a)):
+                    p = os.path.join(root, rel)
+                    os.makedirs(os.path.dirname(p), exist_ok=True)
+                    with open(p, "wb") as f:
+                        f.write(data)
             base = canon_doc(fresh_doc(root))
+            # isolation: what a tree scan reports for a file equals what the file yields when analysed alone
+            from vf.model import select as S
+            for rel, entry in base["files"].items():
+                lang = S.language_of(os.path.basename(rel))
+                with open(os.path.join(root, rel), "rb") as f:
+                    text = hostile.decode(f.read())
+                try:
+                    _, ms = pipeline.analyze(lang, text)
+                    alone = [[m.unit_name, m.start.line, m.start.column, m.end.line, m.end.column, m.value] for m in ms]
+                except Exception as e:
+                    alone = "EXC:" + type(e).__name__
+                in_tree = [[m["unit_name"], m["start"]["line"], m["start"]["column"], m["end"]["line"], m["end"]["column"], m["value"]]
+                           for m in entry["measurements"]]
+                ctx.count("monitor.isolation_checks")
+                if alone != in_tree or entry["language"] != lang:
+                    ctx.violation("file_result_depends_on_other_files", {"tree": ti, "file": rel},
+                                  {"file": rel, "language": lang, "alone": alone if isinstance(alone, str) else alone[:4], "in_tree_scan": in_tree[:4],
+                                   "language_in_tree": entry["language"]})
             ctx.extra.setdefault("tree_digests", {})[f"tree{ti}"] = hashlib.blake2b(
                 json.dumps(base, sort_keys=True).replace(root, "<root>").encode(), digest_size=8).hexdigest()
             prng = rng_for(shard["seed"], "c06p", shard["hashseed"], ti)
